@@ -364,4 +364,10 @@ def rule_md5_block_invariant(ctx):
     c14.rule_md5_block_invariant(ctx)
 
 
-RULES = [rule_tmp_only, rule_inplace_name, rule_output_or_exit, rule_order, rule_rename_owner, rule_write_error_checked, rule_md5_block_invariant]
+def rule_skip_guard(ctx):
+    """... and nothing but a full match of the recorded digest may skip the backup (shared with C14)"""
+    from . import c14
+    c14.rule_skip_guard(ctx)
+
+
+RULES = [rule_tmp_only, rule_inplace_name, rule_output_or_exit, rule_order, rule_rename_owner, rule_write_error_checked, rule_md5_block_invariant, rule_skip_guard]
